@@ -290,7 +290,7 @@ def run_case(case):
     if workload == 'cycle':
         a_mat = c06.matrix(cfg)
         q = float(np.abs(a_mat).sum(axis=1).max())
-        slack = 2 * q / (1 - q) * cfg['iter'][1] * (1 + 1e-5) + 1e-9
+        slack = 2 * q / (1 - q) * (cfg['iter'][1] or 0.01) * (1 + 1e-5) + 1e-9
     else:
         slack = 0
 
